@@ -79,6 +79,58 @@ def check_convert_interval():
     return cases, failures[:3], [{'interval': '36h'}, {'interval': 0.05}]
 
 
+def check_filenames():
+    """C17: the real `filenames` source polled by hand (await src._run(), poll_interval 0) over a scratch directory in which the
+    files of every ordered partition of {a, b, c, d} into polls are created between polls (also one poll with nothing new):
+    every path is delivered exactly once, in the poll in which it first exists, in sorted order within the poll."""
+    import asyncio
+    import itertools
+    import os
+    import shutil
+    import tempfile
+    from streamz.sources import filenames
+    names = ['a', 'b', 'c', 'd']
+    schedules = []
+    for r in range(1, len(names) + 1):
+        for perm in itertools.permutations(names, r):
+            # cut the permutation into consecutive polls in every way (at most 3 polls), plus an empty poll in the middle
+            for cuts in itertools.chain.from_iterable(itertools.combinations(range(1, r), k) for k in range(0, min(r, 3))):
+                b = [0] + list(cuts) + [r]
+                polls = [list(perm[b[i]:b[i + 1]]) for i in range(len(b) - 1)]
+                schedules.append(polls)
+                if len(polls) == 2:
+                    schedules.append([polls[0], [], polls[1]])
+    cases, failures = 0, []
+
+    async def run(polls, d):
+        src = filenames(d, poll_interval=0, start=False, asynchronous=True)
+        got = src.sink_to_list()
+        per_poll = []
+        for new in polls:
+            for n in new:
+                open(os.path.join(d, n), 'w').close()
+            before = len(got)
+            await src._run()
+            per_poll.append([os.path.basename(p) for p in got[before:]])
+        return per_poll
+    for polls in schedules:
+        cases += 1
+        d = tempfile.mkdtemp(prefix='verif_filenames_')
+        try:
+            try:
+                got = asyncio.run(run(polls, d))
+            except Exception as e:
+                got = 'raised %s: %s' % (type(e).__name__, e)
+        finally:
+            shutil.rmtree(d, ignore_errors=True)
+        want = [sorted(p) for p in polls]
+        if got != want:
+            failures.append({'op': 'filenames._run', 'files_created_before_each_poll': polls, 'delivered_per_poll': got, 'expected': want})
+            if len(failures) >= 3:
+                break
+    return cases, failures, [{'files_created_before_each_poll': schedules[5]}]
+
+
 def main():
     pid, tier = sys.argv[1], sys.argv[2]
     repo = sys.argv[4] if len(sys.argv) > 4 else '/repo'
@@ -93,7 +145,11 @@ def main():
         c, f, smp = check_convert_interval()
         out.update({'cases': c, 'distinct': c, 'failures': f, 'samples': smp, 'ops': ['convert_interval'],
                     'space': 'a fixed list of 18 pandas time strings from 1ms to 7 days (incl. >= 24h) and 6 numbers'})
-    json.dump(out, sys.stdout)
+    if pid == 'C17':
+        c, f, smp = check_filenames()
+        out.update({'cases': c, 'distinct': c, 'failures': f, 'samples': smp, 'ops': ['filenames._run'],
+                    'space': 'every ordered choice of up to 4 file names split into at most 3 consecutive polls (plus an empty poll)'})
+    json.dump(out, sys.stdout, default=repr)
 
 
 if __name__ == '__main__':
